@@ -82,6 +82,7 @@ class Sim:
         if any(s_['ln'].startswith('krylov') for s_ in self.world['solvers'].values()):
             self.tol = 1e-5
         self.pending_faults = []
+        self._fired_at_setup = 0
         self.stale_outputs = set()     # outputs overwritten by set_val since last run
         self.void = False
 
@@ -146,7 +147,15 @@ class Sim:
                 # a solver reported non-convergence although no fault was injected into this op
                 if len(self.rt.fired) == fired_before:
                     self.probes.inc('unforced_analysis_error')
-                    if self.ref_well_posed():
+                    if 'BROYDEN' in str(e) and len(self.rt.fired) > self._fired_at_setup:
+                        # Broyden carries its inverse-Jacobian estimate from solve to solve; the re-solves
+                        # that follow an injected fault (from reset guesses) feed it secant updates of poor
+                        # quality, after which it may stagnate -- and says so.  A quasi-Newton method with
+                        # degraded memory has no convergence guarantee even where the reference contracts,
+                        # so the precondition "all solvers converge" is void from here on (not a violation).
+                        self.void = True
+                        self.probes.inc('broyden_nonconvergence_after_fault_history_void')
+                    elif self.ref_well_posed():
                         self.V('I-converge', f"op {kind}: AnalysisError without an injected fault at a design point "
                                f"the reference model solves easily: {str(e)[:300]}")
                     else:
@@ -218,6 +227,7 @@ class Sim:
         finally:
             rel._no_relevance = False
         self.setup_done = True
+        self._fired_at_setup = len(self.rt.fired)     # solver memory starts afresh here
         self.final = False
         self.clean = False
         # a fresh setup resets every value to its declared default
@@ -348,8 +358,9 @@ class Sim:
         """driver-scaling factor (value_scaled = (value + adder) * scaler)."""
         if 'scaler' in v:
             return v['scaler']
-        if 'ref' in v:
-            return 1.0 / (v['ref'] - v.get('ref0', 0.0))
+        if 'ref' in v or 'ref0' in v:
+            # OpenMDAO: a missing ref is 1, a missing ref0 is 0 (general_utils.determine_adder_scaler)
+            return 1.0 / (v.get('ref', 1.0) - v.get('ref0', 0.0))
         return 1.0
 
     def ref_total(self, J, r, d, driver_scaling=False):
@@ -474,6 +485,14 @@ class Sim:
         if with_resid:
             parts.append(m._residuals.asarray().tobytes())
         return b'|'.join(parts)
+
+    def model_state(self):
+        """The model's current outputs in the reference layout, or None if some are not finite."""
+        y = np.zeros(self.ref.N)
+        for key, absname in self.vec_names():
+            s_, sz = self.ref.off[key]
+            y[s_:s_ + sz] = np.array(self.p.get_val(absname)).ravel()
+        return y if np.all(np.isfinite(y)) else None
 
     def outputs_vec(self):
         return self.p.model._outputs.asarray(copy=True)
